@@ -309,6 +309,14 @@ class CancelScope(AbstractCancelScope):
 
         self._check_pending_cancellation(host_task)
 
+        if (
+            self.__cancelled_caught
+            and host_task.cancelling() > self.__host_task_cancelling
+        ):
+            # Somebody else requested a cancellation while this scope was cancelled. There is only one CancelledError
+            # for both requests: it must not stop here.
+            self.__cancelled_caught = False
+
         return self.__cancelled_caught
 
     def __uncancel_task(self, host_task: asyncio.Task[Any], exc: asyncio.CancelledError) -> bool:
